@@ -8,7 +8,7 @@ import numpy as np
 import shapely
 from shapely.geometry import Polygon
 
-from .. import builders
+from .. import builders, sequences
 from ..runner import LibraryRaised, Recorder, lib
 
 PROPERTY = 'C14'
@@ -23,6 +23,7 @@ RULE = (
     "nothing, vertex indexes valid, vertex list free of duplicates.  Non-trivial: polygons with a reflex "
     "or collinear vertex."
     ' Also: the same polygons at cell sizes 2^-17 and 2^12, grids with concave cells after cells without geometry, mostly-empty grids with more cells than vertices (24x24, thorough 260x255).'
+    " Datasets also arrive with a history: warmed convention, copy, deep copy, pickle, netCDF round trip, fully chunked (dask), and hand-built conventions for coordinates autodetection would not pick (decoy pair), after warm / pickle. Also (operation sequences, mc/sequences.py): for 8 base datasets and every sequence `first [middle] query` over 36 operations (queries, in-place edits a user makes, transforms whose result is used next; quick length 2, thorough length 3) ending in one of this property's own queries, the answer on the one used object equals the answer on a never-used rebuild. Second phase: the first case of every distinct outcome and kind (thorough: every case, for expensive checks every kind) again with debug logging enabled, under numpy.errstate(all='ignore'), and in python -O child interpreters."
 )
 LEVEL_TEXT = ("all simple lattice polygons up to the stated vertex count (convex, reflex, collinear, both windings, "
               "every start vertex) and every grid family with holes: exact area partition, n-2 triangles, containment")
@@ -102,7 +103,7 @@ def all_polygons(tier):
     return _POLYGON_CACHE[tier]
 
 
-def cases(tier):
+def _cases_first_call(tier):
     polys = all_polygons(tier)
     out = []
     for start in range(0, len(polys), PACK):
@@ -141,7 +142,7 @@ def cases(tier):
     return out
 
 
-def run_case(case):
+def _run_case_first_call(case):
     rec = Recorder()
     if case['part'] == 'lattice':
         nodes, faces = [], []
@@ -221,3 +222,16 @@ def run_case(case):
                       f"cell {n}: triangle areas do not add up to the cell area (x2)", str(abs(twice_area(ring))), str(area))
     rec.outcome([case['part'], len(triangles)])
     return rec.result()
+
+
+def cases(tier):
+    # first calls on freshly built datasets, then operation sequences on one object (mc/sequences.py)
+    return _cases_first_call(tier) + sequences.cases_for(PROPERTY, tier)
+
+
+def run_case(case):
+    if case.get('part') == 'sequence':
+        rec = Recorder()
+        sequences.run_case(PROPERTY, case, rec)
+        return rec.result()
+    return _run_case_first_call(case)
